@@ -1431,3 +1431,25 @@ for _lab, _env in (("envCFLAGS", {"CFLAGS": "-O1 -DFFCX_VERIF_ENV=1"}), ("envCC"
                    ("envCPPFLAGS", {"CPPFLAGS": "-DFFCX_VERIF_CPP=1"})):
     _r = _add(POOL["stiff_p2_triangle"].variant(f"@{_lab}", tags=("family", "jitonly", "goldonly")))
     _r.jit_env = dict(_env)
+
+
+# ---- additions after the seventh round of seeded changes ---------------------------------------
+# a request FFCx accepts in analysis and IR and rejects in code generation (stage 3), after the
+# geometry of its mesh has been visited
+_add(
+    _lagrange_form(
+        "bad_bessel_stage3", "triangle", 1,
+        "ufl.bessel_I(1, f) * ufl.inner(ufl.grad(u), ufl.grad(v)) + ufl.CellVolume(mesh) * u * v",
+        extra=["f = ufl.Coefficient(V)"], tags=("bad",),
+    )
+)
+# the custom rule of cquad_base with weights that differ from it in the last place only
+_add(
+    Request(
+        "cquad_weights_ulp",
+        "forms",
+        [s.replace("/ 6.0", "/ 6.0 * (1 + 4e-16)") if s.startswith("qwts") else s
+         for s in POOL["cquad_base"].stmts],
+        tags=("family", "cquad", "npstr"),
+    )
+)
